@@ -9,7 +9,44 @@ import (
 )
 
 func init() {
-	Register(&Property{ID: "C15", Run: runC15, Strata: strataC15})
+	Register(&Property{ID: "C15", Run: runC15, Strata: strataC15, Sweep: sweepC15})
+}
+
+// sweepC15 enumerates complete cut sets of short request streams (no pauses, no server-side cuts, so the client's
+// write boundaries are exactly the server's read boundaries):
+//   - one request of each function with a 12-byte frame (FC1-FC6) or 8-byte frame (FC17): all 2^(n-1) cut sets;
+//   - one small FC15 / FC16 / FC23 request (15 / 17 / 19 bytes): every single cut and every pair of cuts;
+//   - two 12-byte requests sent back to back (24 bytes), pipelined: every single cut and every pair of cuts.
+func sweepC15(tier string) []Stratum {
+	var out []Stratum
+	base := func(fc int, nreq int32, pip int32, mask int32) Stratum {
+		return Stratum{Named: map[string]int32{"nconn": 0, "tidbase": 0, "pipelined": pip, "cutmode": 6, "nreq": nreq, "fc": int32(fc), "small": 1,
+			"cutmask": mask, "gapsel": 0, "srvcut": 0, "lat": 0, "rt": 0}}
+	}
+	lens := []int{12, 12, 12, 12, 12, 12, 15, 17, 8, 19} // index into AllFCs -> frame length of the small request
+	for fi, n := range lens {
+		if n <= 12 {
+			for m := int32(0); m < 1<<uint(n-1); m++ {
+				out = append(out, base(fi, 0, 0, m))
+			}
+			continue
+		}
+		for a := 0; a < n-1; a++ {
+			out = append(out, base(fi, 0, 0, 1<<uint(a)))
+			for b := a + 1; b < n-1; b++ {
+				out = append(out, base(fi, 0, 0, 1<<uint(a)|1<<uint(b)))
+			}
+		}
+	}
+	for _, fi := range []int{2, 5} {
+		for a := 0; a < 23; a++ {
+			out = append(out, base(fi, 1, 1, 1<<uint(a)))
+			for b := a + 1; b < 23; b++ {
+				out = append(out, base(fi, 1, 1, 1<<uint(a)|1<<uint(b)))
+			}
+		}
+	}
+	return out
 }
 
 // strata: the first draws of genC15: connection count (forced to 1), tid base, pipelined?, cut mode.
@@ -30,6 +67,9 @@ type c15Info struct {
 
 func genValidSrvReq(t *Tape, fc byte, unit byte, tid uint16) (SrvReq, bool) {
 	r := GenLegalReq(t, fc)
+	if t.ChooseAs("small", 4) == 1 {
+		SmallReq(&r)
+	}
 	lr, err := BuildLibRequest(r, unit, tid, TCP)
 	if err != nil {
 		return SrvReq{}, false
@@ -39,17 +79,20 @@ func genValidSrvReq(t *Tape, fc byte, unit byte, tid uint16) (SrvReq, bool) {
 
 func genC15(t *Tape) (*SrvScenario, *c15Info, bool) {
 	sc := &SrvScenario{}
-	nconn := 1 + t.Pick(5, 3, 2)
-	tidBase := 1 + t.Choose(60000)
+	nconn := 1 + t.PickAs("nconn", 5, 3, 2)
+	tidBase := 1 + t.ChooseAs("tidbase", 60000)
 	info := &c15Info{}
 	for ci := 0; ci < nconn; ci++ {
 		plan := SrvConnPlan{}
-		plan.Pipelined = t.Choose(2) == 1
-		cutMode := t.Choose(6)
-		nreq := 1 + t.Pick(4, 3, 2, 1, 1, 1)
+		plan.Pipelined = t.ChooseAs("pipelined", 2) == 1
+		cutMode := t.ChooseAs("cutmode", 6)
+		if t.Has("cutmode") {
+			cutMode = int(t.Named["cutmode"])
+		}
+		nreq := 1 + t.PickAs("nreq", 4, 3, 2, 1, 1, 1)
 		fc17 := false
 		for ri := 0; ri < nreq; ri++ {
-			fc := AllFCs[t.Choose(len(AllFCs))]
+			fc := AllFCs[t.ChooseAs("fc", len(AllFCs))]
 			// small requests most of the time: the cut space of short streams is what matters
 			tid := uint16(tidBase + ci*16 + ri)
 			r, ok := genValidSrvReq(t, fc, byte(1+ci), tid)
@@ -106,6 +149,13 @@ func genC15(t *Tape) (*SrvScenario, *c15Info, bool) {
 					cuts = append(cuts, p)
 				}
 			}
+		case 6: // explicit cut set (exhaustive sweeps): bit i set = a cut after byte i+1
+			mask := t.ChooseAs("cutmask", 1<<23)
+			for p := 1; p < total; p++ {
+				if mask&(1<<uint(p-1)) != 0 {
+					cuts = append(cuts, p)
+				}
+			}
 		case 5: // pipelined only: several frames per write, a write ending inside the next frame
 			if plan.Pipelined {
 				for p := 1; p < total; p++ {
@@ -135,7 +185,7 @@ func genC15(t *Tape) (*SrvScenario, *c15Info, bool) {
 		for _, c := range append(cs, total) {
 			plan.Writes = append(plan.Writes, c-prev)
 			g := time.Duration(0)
-			switch t.Pick(5, 2, 2) {
+			switch t.PickAs("gapsel", 5, 2, 2) {
 			case 1:
 				g = time.Duration(100+t.Choose(900)) * time.Microsecond
 			case 2:
@@ -174,9 +224,19 @@ func genC15(t *Tape) (*SrvScenario, *c15Info, bool) {
 		info.FC17 = append(info.FC17, fc17)
 		sc.Conns = append(sc.Conns, plan)
 	}
-	sc.ReadTimeout = []time.Duration{0, time.Millisecond, 2 * time.Millisecond, 20 * time.Millisecond}[t.Choose(4)]
-	sc.CutServerReads = t.Choose(2) == 1
-	sc.LatencyMax = []time.Duration{0, 100 * time.Microsecond, 3 * time.Millisecond}[t.Choose(3)]
+	sc.ReadTimeout = []time.Duration{0, time.Millisecond, 2 * time.Millisecond, 20 * time.Millisecond}[t.ChooseAs("rt", 4)]
+	sc.CutServerReads = t.ChooseAs("srvcut", 2) == 1
+	sc.LatencyMax = []time.Duration{0, 100 * time.Microsecond, 3 * time.Millisecond}[t.ChooseAs("lat", 3)]
+	sc.TimeoutWithData = t.ChooseAs("twd", 6) == 5
+	// some handlers take simulated time, so pipelined bytes pile up while a request is being served
+	for ci := range sc.Conns {
+		for ri := range sc.Conns[ci].Reqs {
+			if !t.Has("cutmask") && t.Chance(1, 5) {
+				sc.Conns[ci].Reqs[ri].Mode = HSlow
+				sc.Conns[ci].Reqs[ri].Work = time.Duration(1+t.Choose(30)) * time.Millisecond
+			}
+		}
+	}
 	return sc, info, true
 }
 
